@@ -62,7 +62,7 @@ def reproduce(item):
 
 def main(tier):
     t0 = time.time()
-    its = common.pipe_items(tier, KQ, KT, k1=True)
+    its = common.pipe_items(tier, KQ, KT, one_line=True, k1=True)
     m = explore.run(its, execute, horizon=90.0, label=PROP)
     return report.finish(
         PROP, tier, "model_checking", [m], t0,
